@@ -33,7 +33,7 @@ open Sux
 /-- `debug_assert!(c)` / `assert!(c)` -/
 @[inline] def check (c : Bool) : Out Unit := if c then .ok () else .panic
 
-@[inline] def popc (w : Nat) : Nat := popcount 64 w
+@[inline] def pc64 (w : Nat) : Nat := popcount 64 w
 
 /-- `x & !(2^k - 1)` written as in the source: `x & !m` on 64-bit words -/
 @[inline] def andNot (x m : Nat) : Nat := x &&& notW 64 m
@@ -43,7 +43,7 @@ open Sux
 /-- `usize::select_in_word` with its `debug_assert!(rank < self.count_ones())`; the in-domain value
 is `Sux.RS.selectInWord` (`SuxModel/RankSel/Hinted.lean`) -/
 def selInWord (w r : Nat) : Out Nat :=
-  if r < popc w then .ok (Sux.RS.selectInWord w r) else .panic
+  if r < pc64 w then .ok (Sux.RS.selectInWord w r) else .panic
 
 /-! ## ones before a word -/
 
@@ -58,7 +58,7 @@ def wordBelow (ws : Array Nat) (len i : Nat) : Nat :=
 /-- `cumOnes ws len` has `len.div_ceil 64 + 1` entries; entry `i` is `onesBefore ws len i` -/
 def cumOnes (ws : Array Nat) (len : Nat) : Array Nat :=
   (List.range ((len + 63) / 64)).foldl
-    (fun acc i => acc.push (acc.getD i 0 + popc (wordBelow ws len i))) #[0]
+    (fun acc i => acc.push (acc.getD i 0 + pc64 (wordBelow ws len i))) #[0]
 
 /-- executable "ones before word `w`" read off `cumOnes` (clamped like `onesBefore`) -/
 def obOf (cum : Array Nat) (w : Nat) : Nat := cum.getD (min w (cum.size - 1)) 0
